@@ -531,6 +531,26 @@ def thunk_eq_probe(ck):
     return rc
 
 
+def drop_chain_probe(ck):
+    """Drop for ValueBlockRc recurses through drop_in_place of the payload: a chain of N thunks (each
+    held by the environment of the next) is dropped with native recursion depth N.  On an 8 MiB stack
+    the debug build aborts well below N = 100000.  Not an invalid memory access (the guard page
+    turns it into an abort) but a crash of the anchored code: recorded as a known finding."""
+    exe_impl = core.harness_bin("c18")
+    try:
+        p = subprocess.run([exe_impl, "dropchain", "100000", "8192"], stdout=subprocess.PIPE, stderr=subprocess.PIPE,
+                           timeout=300, text=True, errors="replace")
+        rc, err = p.returncode, p.stderr
+    except subprocess.TimeoutExpired:
+        rc, err = "timeout", ""
+    ck.coverage["drop_chain_probe"] = "exit %s" % rc
+    if rc != 0:
+        ck.violation("deep-drop-stack-overflow",
+                     "dropping a chain of 100000 thunks on an 8 MiB stack aborts with a stack overflow (recursive Drop)",
+                     {"how_to_replay": ".build/target/debug/c18 dropchain 100000 8192", "stderr": err[-500:],
+                      "nickel_program": "let rec mk = fun n acc => if n == 0 then acc else mk (n - 1) (fun _ => acc) in let x = mk 10000 null in %seq% x 1"})
+
+
 def run(ck):
     hook = have_hook()
     ck.coverage["hook_H7_present"] = hook
@@ -572,6 +592,8 @@ def run(ck):
     progs = gen_programs(rng.fork(), 300 if ck.tier == "quick" else 6000)
     outs = run_progs(ck, progs)
     ck.coverage["programs"] = len(progs)
+    drop_chain_probe(ck)
+    thunk_eq_probe(ck)
     if outs:
         ck.sample({"program": progs[0][:200], "outcome": outs[0][:120]})
     ck.coverage["rule"] = ("history = seeded random sequence of value-level operations (constructors of every block kind, "
@@ -705,6 +727,12 @@ def sanitizers(ck, rng, cases, progs):
             san["asan_" + mode] = {"inputs": len(lines), "rc": rc}
             if rc != 0 or "AddressSanitizer" in err:
                 hit = find_crasher(exe, [mode], lines, env=dict(os.environ, **aenv))
+                rep = (hit[1] if hit else err)
+                if "stack-overflow" in rep and "drop_in_place" in rep:
+                    # native recursion of Drop, already reported by the probe
+                    ck.violation("deep-drop-stack-overflow", "AddressSanitizer: stack overflow in the recursive Drop of a long chain of thunks (abandoned diverging program)",
+                                 {"program_line": hit[0] if hit else None, "stderr": rep[-1500:]})
+                    continue
                 ck.violation("asan:" + mode, "AddressSanitizer report / abnormal exit of the sanitized harness",
                              {("case" if mode == "hist" else "stack_script" if mode == "stack" else "program_line"): hit[0] if hit else None,
                               "stderr": (hit[1] if hit else err)[-3000:]})
